@@ -1,6 +1,6 @@
 """Effect rules E1-E6 (C11) and MW3."""
 from mirq.anchors import POOL_EXEC, POOL_JOIN, THREAD_SPAWN
-from mirq.prov import subterms, term_str, strip_wrap, strip_clone
+from mirq.prov import subterms, term_str, strip_wrap, strip_clone, is_lock_result
 from mirq.report import short, AnchorMissing
 from rules.pipe import _pipe, _loop_of
 from mirq.program import Site
@@ -300,7 +300,7 @@ def e5_total_handover(ctx, rep):
                 continue  # tabled: only effects panic, and they do so on workers outside the lock (E3)
             n += 1
             ex = [e for e in p.calls() if e.ck in POOL_EXEC]
-            pool = [v for (k, v) in p.decisions if k[0] == "discr" and k[1][0] != "lockres" and any(st[0] == "field" and st[2] == A.f_pool for st in subterms(k[1]))]
+            pool = [v for (k, v) in p.decisions if k[0] == "discr" and not is_lock_result(k[1]) and any(st[0] == "field" and st[2] == A.f_pool for st in subterms(k[1]))]
             if ex:
                 caps = False
                 for e in ex:
